@@ -1,5 +1,6 @@
 import BoltonsVerif.C13.Proofs
 import BoltonsVerif.C13.SessionProofs
+import BoltonsVerif.C13.Hygiene
 /-
 C13 — property theorems for the model of `funcutils.wraps / update_wrapper /
 FunctionBuilder` (statements, short derivations from `Proofs.lean`, non-vacuity
@@ -390,6 +391,34 @@ theorem defaults_stay_attached (f : Func) (wf : WfFunc f) (inj : List Name)
   rw [hd p he, hk2, hp, hk, hfilter, hfilter, fromFunc_kwSig]
   rfl
 
+/-- ANY `injected` and `expected` lists together, whenever `update_wrapper` accepts them: the own
+    signature changes by exactly those parameters.  Taking the expected names away from the new
+    positional parameters leaves the old ones minus the injected names - same order, same defaults;
+    every expected name is a positional parameter with exactly the default asked for (`none` =
+    required); the keyword-only parameters are the old ones minus the injected names; `*args` and
+    `**kw` are untouched; the expected names are pairwise distinct -/
+theorem injected_expected_exact (f : Func) (wf : WfFunc f) (inj : List Name)
+    (exp : List (Name × Option Val)) (o : Opts) (ident : Nat) (w : Func)
+    (h : updateWrapper f inj exp o ident = .ok w) :
+    (sigOf w).pos.filter (keyNotIn (exp.map Prod.fst)) = (sigOf f).pos.filter (keyNotIn inj) ∧
+      (∀ zd ∈ exp, get? zd.1 (sigOf w).pos = some zd.2) ∧
+      (sigOf w).kwonly = (sigOf f).kwonly.filter (keyNotIn inj) ∧
+      (sigOf w).varargs = (sigOf f).varargs ∧ (sigOf w).varkw = (sigOf f).varkw ∧
+      (exp.map Prod.fst).Nodup := by
+  obtain ⟨fb1, fb2, h1, h2, _, rfl⟩ := updateWrapper_inv h
+  obtain ⟨wf1, hp, hk, hr1⟩ := injectAll_spec (wfFB_fromFunc wf) inj h1
+  obtain ⟨_, hk2, hr2, _, _⟩ := expectAll_spec wf1 exp h2
+  obtain ⟨e1, e2, e3, _⟩ := expectAll_exact wf1 exp h2
+  have hrest := hr2.trans hr1
+  simp only [FB.rest, Prod.mk.injEq] at hrest
+  obtain ⟨_, _, _, hva, hvk, _, _, _⟩ := hrest
+  rw [sigOf_toFunc]
+  refine ⟨?_, e2, ?_, hva, hvk, e3⟩
+  · show fb2.posSig.filter _ = _
+    rw [e1, hp]; rfl
+  · show fb2.kwSig = _
+    rw [hk2, hk, fromFunc_kwSig]
+
 /-- an entry of `__annotations__` naming no parameter is not reported by `getfullargspec` -/
 theorem get?_annOf_of_not_mem {f : Func} {p : Name} (hp : p ∉ paramNames f) : get? p (annOf f) = none := by
   unfold annOf
@@ -511,6 +540,36 @@ theorem history_forwarding (f : Func) (ops : List BOp) (ident : Nat) (w : Func)
   rw [hb, parseCall_body fb ident _ hn]
   exact he
 
+/-! ## the name the user's wrapper goes by inside the built function (`Hygiene.lean`)
+
+`callWrapper` above takes for granted that the callee of the generated body IS the user's wrapper.
+That depends on names: the body runs in `{call_name: wrapper, '_func': func}`, the `def` binds the
+function's own name there, and a parameter of the same name shadows it. -/
+
+/-- whatever the parameters, `*args`, `**kw` and the function itself are called - `_call`,
+    `__call`, … included - the name `update_wrapper` picks (its `while` loop, which ends within
+    as many rounds as there are names to avoid) resolves, inside the body, to the user's wrapper:
+    not to an argument, not to the new function itself, not to `_func`.  `cn k` is the spelling
+    `'_' * k + '_call'` (any injective numbering that never hits the key `_func`). -/
+theorem callee_reaches_wrapper (cn : Nat → Name) (hinj : ∀ i j, cn i = cn j → i = j) (funcKey : Name)
+    (hk : ∀ k, cn k ≠ funcKey) (fb : FB) : fb.callee cn funcKey = .userWrapper := by
+  have hfresh := pickCall_fresh cn hinj fb.takenNames
+  unfold FB.callee
+  apply resolve_fresh
+  · intro hm
+    apply hfresh
+    simp only [FB.takenNames, List.mem_append] at hm ⊢
+    rcases hm with ((hm | hm) | hm) | hm
+    · exact Or.inl (Or.inl (Or.inl (Or.inl hm)))
+    · exact Or.inl (Or.inl (Or.inr hm))
+    · exact Or.inl (Or.inl (Or.inl (Or.inr hm)))
+    · exact Or.inl (Or.inr hm)
+  · intro he
+    apply hfresh
+    simp only [FB.takenNames, List.mem_append, List.mem_singleton]
+    exact Or.inr he
+  · exact hk _
+
 /-! ## several uses in one process (sessions)
 
 `Session.lean`: a heap of dict objects; `from_func` allocates copies, the builder's mutators
@@ -618,6 +677,17 @@ example : (updateWrapper exF [4] [(4, some 44), (6, none)]).toOption.map
     (fun w => (get? 1 w.ann, get? 6 w.ann, paramNames w)) = some (some 31, none, [1, 6, 2, 3, 4, 7, 5, 9]) := by decide
 example : readded [.remove 2, .add 6 none false, .remove 5, .add 2 (some 42) true] = [2] := by decide
 example : errOf (updateWrapper { exF with varkw := none } [8] []) = some .missingArgument := by decide
+
+-- names: `_call` = 90, `__call` = 91, `___call` = 92, …; `_func` = 80
+-- def _call(p1, __call): the loop goes on to `___call`; always using `_call` would call the function itself,
+-- and with a parameter of that name the argument
+example : pickCall (fun k => 90 + k) (FB.fromFunc { exF with name := 90, args := [1, 91, 3] }).takenNames = 92 := by decide
+example : (FB.fromFunc { exF with name := 90 }).calleeNaive (fun k => 90 + k) 80 = .self := by decide
+example : (FB.fromFunc { exF with args := [1, 90, 3] }).calleeNaive (fun k => 90 + k) 80 = .argument := by decide
+example : (FB.fromFunc { exF with name := 90, args := [1, 91, 3] }).callee (fun k => 90 + k) 80 = .userWrapper := by decide
+-- inject p2 (default 12), p4 (keyword-only); expect p6 (required) and p8=48: p1, p3 keep place and default
+example : (updateWrapper exF [2, 4] [(6, none), (8, some 48)]).toOption.map (fun w => sigOf w) =
+    some ⟨[(1, none), (6, none), (3, some 13), (8, some 48)], some 7, [(5, some 25)], some 9⟩ := by decide
 
 /-- the same function wrapped three times, the second time with its keyword-only `p5=25`
     injected; then the user edits the second wrapper: nobody else notices -/
